@@ -536,7 +536,7 @@ void RescaledHmmLikelihood::computeD2Forward_() const
 
   for (size_t i = 1; i < nbSites_; i++)
   {
-    dScales_[i] = 0;
+    d2Scales_[i] = 0;
 
     emissions = &(*emissionProbabilities_)(i);
     dEmissions = &emissionProbabilities_->getDEmissionProbabilities(i);
@@ -591,7 +591,7 @@ void RescaledHmmLikelihood::computeD2Forward_() const
 
   greater<double> cmp;
   sort(d2LScales.begin(), d2LScales.end(), cmp);
-  dLogLik_ = 0;
+  d2LogLik_ = 0;
   for (size_t i = 0; i < nbSites_; ++i)
   {
     d2LogLik_ += d2LScales[i];
